@@ -117,6 +117,8 @@ type c07Op struct {
 	run  func(ctx sdk.Context) (sdk.Coins, error)
 	// needsXfer: some pair of the transfer carries a restricted coin whose sender has no Access_Transfer
 	needsXfer bool
+	// repeatedInput: the many-inputs transfer names the same input address twice
+	repeatedInput bool
 }
 
 // lacksXfer: the sender may not move some restricted coin among cs.
@@ -448,6 +450,12 @@ func TestC07(t *testing.T) {
 			descs = append(descs, okMark+op.desc)
 			w.Count("op_" + op.kind)
 			totalOps++
+			if op.repeatedInput {
+				w.Count("multi_in_repeated_input_address")
+				if err == nil {
+					w.Count("multi_in_repeated_input_address_accepted")
+				}
+			}
 			if err == nil {
 				totalOK++
 				w.Count("op_" + op.kind + "_accepted")
@@ -642,14 +650,18 @@ func genC07Op(e *c07Env, r *rand.Rand, ctx sdk.Context, players, people []sdk.Ac
 		var total sdk.Coins
 		var froms []sdk.AccAddress
 		used := map[string]bool{}
+		repeated := false
 		for i := 0; i < n; i++ {
 			from := pick(players)
-			if used[string(from)] {
-				continue // the bank aggregates repeated inputs before debiting; keep them distinct
+			if used[string(from)] && r.Intn(3) != 0 {
+				continue // mostly distinct inputs; a repeated input address is aggregated by the bank before debiting
 			}
 			cs := someCoins(ctx, from, r.Intn(15) == 0)
 			if cs.IsZero() {
 				continue
+			}
+			if used[string(from)] {
+				repeated = true
 			}
 			used[string(from)] = true
 			froms = append(froms, from)
@@ -662,7 +674,7 @@ func genC07Op(e *c07Env, r *rand.Rand, ctx sdk.Context, players, people []sdk.Ac
 		for _, in := range ins {
 			lacks = lacks || e.lacksXfer(sdk.MustAccAddressFromBech32(in.Address), in.Coins)
 		}
-		return c07Op{kind: "multi_in", term: "OMultiIn " + coqList(inTerms) + " " + e.pos(to), needsXfer: lacks,
+		return c07Op{kind: "multi_in", term: "OMultiIn " + coqList(inTerms) + " " + e.pos(to), needsXfer: lacks, repeatedInput: repeated,
 			desc: fmt.Sprintf("multiin %s>%s %s", e.short(froms), e.short([]sdk.AccAddress{to}), total),
 			run: func(ctx sdk.Context) (sdk.Coins, error) {
 				if len(ins) == 0 {
